@@ -138,6 +138,50 @@ func multi(x int) (a int, b string, c func() int) {
 	return
 }
 
+// a closure created inside a function literal that has no variables of its own
+// and captures a variable of the function around it
+func viaIIFE(start int) func() int {
+	x := start
+	var f func() int
+	func() {
+		f = func() int {
+			x++
+			return x
+		}
+	}()
+	return f
+}
+
+// a function without parameters, results and locals that lets a closure escape
+func hookAppend() {
+	gfuncs = append(gfuncs, func() int {
+		return 7
+	})
+}
+
+var ghook func()
+
+func callHook(n int) {
+	ghook()
+}
+
+// frames with only boxed slots / only integer slots around an escaping closure
+func onlyBoxed(s string) func() int {
+	t := s + "!"
+	return func() int {
+		t += "x"
+		return len(t)
+	}
+}
+
+func onlyInts(a int, b int) func() int {
+	c := a * b
+	return func() int {
+		c += a
+		return c - b
+	}
+}
+
 // churn allocates and frees frames of several shapes
 func churn(depth int) int {
 	a, b, c := depth, depth*2, depth*3
@@ -172,9 +216,24 @@ func churn2(n int) int {
 func Main() {
 	gfuncs, gsetters, gptrs, gsptrs = nil, nil, nil, nil
 	gmap = make(map[int]func(int) int)
+	ghook = func() {
+		gfuncs = append(gfuncs, func() int {
+			return 9
+		})
+	}
 	steps := 6 + hook.Choose(14)
 	for s := 0; s < steps; s++ {
-		switch hook.Choose(14) {
+		switch hook.Choose(19) {
+		case 14:
+			gfuncs = append(gfuncs, viaIIFE(hook.Choose(30)))
+		case 15:
+			hookAppend()
+		case 16:
+			callHook(s)
+		case 17:
+			gfuncs = append(gfuncs, onlyBoxed("ab"))
+		case 18:
+			gfuncs = append(gfuncs, onlyInts(s+1, hook.Choose(5)))
 		case 0:
 			gfuncs = append(gfuncs, mkCounter(hook.Choose(100)))
 		case 1:
